@@ -488,11 +488,16 @@ func checkProperty(cfg *RunCfg, prog *Program, id string, start time.Time) (int,
 	for _, k := range order {
 		r := results[k]
 		if r.EngineError != "" {
-			if (autoC17[k] || autoC09[k]) && prog.Funcs[k] != nil && prog.Funcs[k].Con == nil {
-				// a function that is part of the claim only because EVERY function of its kind is (C17: returns an
-				// error, C09: ranges over a map) and that the engine cannot analyse: the property is not established
-				// for it -- reported as an open obligation, not as a broken check
-				kind := "propagate"
+			if prog.Funcs[k] != nil {
+				// a function that is part of the claim and that the engine cannot analyse on THIS tree (a construct
+				// outside the verified subset, or verification conditions beyond the size cap): every function of the
+				// claim is analysable on the pinned tree, so this is the effect of a change -- the property is not
+				// established for the function any more. Reported as an open obligation (no failing input), not as a
+				// broken check.
+				kind := "assert"
+				if autoC17[k] && prog.Funcs[k].Con == nil {
+					kind = "propagate"
+				}
 				if autoC09[k] {
 					kind = "commute"
 				}
